@@ -516,3 +516,96 @@ def floordiv_unit():
 
 
 UNITS += [floordiv_unit()]
+
+
+# ================================================================================================ Task.__init__
+ANY = S('Any', DeclareSort('Any'))
+INIT_CLASSES = dict(TASK_CLASSES)
+INIT_CLASSES['Task'] = dict(TASK_CLASSES['Task'], name=ANY, resource=ANY, start=ANY, end=ANY, milestone=ANY, min_start=ANY, _Task__estimate=ANY, _Task__spent=ANY)
+KWD = REF('KwArgs')
+
+
+def blank(h, t):
+    """a task object that has not been constructed yet: nobody refers to it (the unallocated part of the heap is modelled as blank objects that satisfy Inv trivially)"""
+    return And(t != null, h.par[t] == null, h.own[t] == W.null,
+               ForAll([t_], Implies(t_ != null, And(h.par[t_] != t, Not(mem(h.ch(t_), t)), Not(mem(h.P(t_), t)), Not(mem(h.S(t_), t)))), patterns=[h.par[t_], mem(h.ch(t_), t), mem(h.P(t_), t), mem(h.S(t_), t)]),
+               ForAll([w_], Implies(w_ != W.null, h.root[w_] != t), patterns=[h.root[w_]]))
+
+
+def task_init_unit():
+    def build():
+        hc = lambda c: H(c.eng, c.st); h0 = lambda c: H(c.eng, c.pre); me = lambda c: c['self']
+
+        class InitPlugin(ChildrenPlugin):
+            def ev_List(self_, eng, e, st):
+                if not e.elts: return [(st, V(empty, LT))]
+                return NotImplemented
+
+            def truth(self_, eng, st, v):
+                if v.s == LT: return ln(v.e) > 0
+                return NotImplemented
+
+            def assign(self_, eng, s, target, v):
+                # plain data attributes (name, resource, dates, ...) and the private estimate / spent cells: no part of the task graph
+                if isinstance(target, ast.Attribute) and eng.classes.get('Task', {}).get(eng.mangle(target.attr)) == ANY: return [(s, FALL)]
+                return ListPlugin.assign(self_, eng, s, target, v)          # self.__children = [] ...: a NEW list object
+
+            def for_loop(self_, eng, stmt, st):
+                if ast.unparse(stmt.iter) != 'kwargs.items()': return ChildrenPlugin.for_loop(self_, eng, stmt, st)
+                k = eng.loop_contract[eng.loop_ids[id(stmt)]][0]; idxn = f'_i{k}'; eng.locals[idxn] = INT
+                st.env[idxn] = V(IntVal(0), INT); n = fresh('n_kwargs', INT); st.assume(n >= 0)
+
+                def guard(s): return [(s, s.env[idxn].e < n)]
+
+                def pre(b):
+                    for nm in [e_.id for e_ in stmt.target.elts]: b.env[nm] = V(fresh(nm, ANY), ANY)
+                    b.env[idxn] = V(b.env[idxn].e + 1, INT); return [b]
+                return eng.loop(stmt, st, guard, pre, extra_havoc=[idxn] + [e_.id for e_ in stmt.target.elts])
+
+        def c_plain_setter(eng, st, recv, args, kws, node):          # estimate / spent: store the value or refuse a negative one; no effect on the task graph
+            return [(st.fork(), V(None, NONE)), (st.fork(), Raise('RuntimeError'))]
+
+        def c_setattr(eng, st, recv, args, kws, node):               # object.__setattr__(name, value) for an additional public attribute: no effect on the task graph (domain: the name is none of the graph attributes)
+            return [(st, V(None, NONE))]
+
+        def c_set_parent(eng, st, recv, args, kws, node):
+            return parent_setter_call(eng, st, recv.e, eng.coerce(args[0], T), node.lineno)
+
+        def c_set_children(eng, st, recv, args, kws, node):
+            st.ghost['children_assigned'] = BoolVal(True)
+            return children_setter_call(eng, st, recv.e, args[0].e, node.lineno)
+
+        def c_set_links(side):
+            def c(eng, st, recv, args, kws, node):
+                res, rc = link_setter_call(eng, st, side, recv.e, args[0].e, node.lineno)
+                return res
+            return c
+
+        def graph_same(c, a, b):
+            return And(a.par == b.par, a.own == b.own, a.elems == b.elems, a.chl == b.chl, a.tid == b.tid, a.root == b.root, a.pre == b.pre, a.suc == b.suc)
+        E_ok = lambda c, side: LInv_side(side, hc(c), c.st.ghost['E'])
+        fc = {'sig': {'self': T, 'id': INT, 'name': ANY, 'resource': ANY, 'start': ANY, 'end': ANY, 'milestone': ANY, 'estimate': ANY, 'spent': ANY, 'parent': T, 'children': LT, 'predecessors': LT,
+                      'successors': LT, 'min_start': ANY, 'kwargs': KWD},
+              'ghost': {'attach_rejected': BOOL, 'E': S('REL', REL), 'children_given': BOOL},
+              'requires': [(l_, (lambda l_: lambda c: Inv(hc(c))[l_])(l_)) for l_ in LABS] +
+                          [('the-object-under-construction-is-blank', lambda c: blank(hc(c), me(c))), ('id-is-not-the-reserved-one', lambda c: c['id'] != EMPTY),
+                           ('ghost-flag-starts-false', lambda c: Not(c.st.ghost['attach_rejected'])),
+                           ('children-given-as-a-list-of-public-tasks-without-repetition', lambda c: And(nodup(c['children']), ForAll([x], Implies(mem(c['children'], x), And(x != null, x != me(c), hc(c).tid[x] != EMPTY))))),
+                           ('no-dependency-arguments (domain of this proof; with them: bounded stand-in)', lambda c: And(ln(c['predecessors']) == 0, ln(c['successors']) == 0))],
+              'loops': {0: {'fingerprint': 'for (k, v) in kwargs.items()', 'invariant': [('additional-attributes-do-not-touch-the-task-graph', lambda c: And(c['_i0'] >= 0, graph_same(c, hc(c), H(c.eng, c.entry)),
+                                                                                                                                                     *[Inv(hc(c))[l_] for l_ in LABS]))]}},
+              'raises': {'RuntimeError': []},          # the constructor is not atomic (known finding A-12): nothing is claimed for a refused construction
+              'ensures': [(l_, (lambda l_: lambda c: Inv(hc(c))[l_])(l_)) for l_ in LABS] +
+                         [('C05/the-task-carries-the-given-id', lambda c: hc(c).tid[me(c)] == c['id']),
+                          ('C05/ids-of-all-other-tasks-unchanged', lambda c: ForAll([x], Implies(x != me(c), hc(c).tid[x] == h0(c).tid[x]))),
+                          ('C16/parent-as-given', lambda c: Implies(c['parent'] != null, hc(c).par[me(c)] == c['parent']))]}
+        def c_unreachable(eng, st, recv, args, kws, node):
+            st.oblige('domain/no-dependency-arguments-so-the-link-setters-are-not-reached', BoolVal(False), f'@{node.lineno}')
+            return []          # proved unreachable: the path ends here
+        contracts = {'setprop:Task.estimate': c_plain_setter, 'setprop:Task.spent': c_plain_setter, 'Task.__setattr__': c_setattr,
+                     'setprop:Task.parent': c_set_parent, 'setprop:Task.children': c_set_children, 'setprop:Task.successors': c_unreachable, 'setprop:Task.predecessors': c_unreachable}
+        return Engine(F, 'Task.__init__', contracts, INIT_CLASSES, fc, plugins=[InitPlugin()]), LIST_AX + GRAPH_AX + KID_AX
+    return Unit('Task.__init__', F, build, ['C01', 'C05', 'C11', 'C16'], timeout_ms=15000)
+
+
+UNITS += [task_init_unit()]
